@@ -104,7 +104,7 @@ func init() {
 		if kv["twice"] == "1" {
 			env.cancel()
 		}
-		during := "n/a"
+		during, heldDrain := "n/a", "n/a"
 		if held != nil {
 			time.Sleep(60 * time.Millisecond)
 			during = "refused"
@@ -124,6 +124,14 @@ func init() {
 					}
 					c.Close()
 				}
+			}
+			// the held connection is still in the middle of its exchange: Serve must not have returned yet
+			select {
+			case err := <-env.served:
+				env.served <- err
+				heldDrain = "serve-returned-while-an-exchange-was-open"
+			default:
+				heldDrain = "ok"
 			}
 			held.Close()
 		}
@@ -204,7 +212,7 @@ func init() {
 				time.Sleep(20 * time.Millisecond)
 			}
 		}
-		return fmt.Sprintf("ret=%s fast=%s listener=%s post=%s h1idle=%s inflight=%s drain=%s during=%s counted=%s", ret, fast, lnState, post, idleState, ifl, early, during, counted)
+		return fmt.Sprintf("ret=%s fast=%s listener=%s post=%s h1idle=%s inflight=%s drain=%s during=%s held=%s counted=%s", ret, fast, lnState, post, idleState, ifl, early, during, heldDrain, counted)
 	})
 
 	// shutdown2: ONE server serving TWO listeners (Serve may be called more than once); after cancellation both calls must
